@@ -5,6 +5,8 @@ oracle verbs of C05 / C07 (write side):
 `check-write x<raw stream> <kaIds|-> <mustAck|-> <issued…>` — the Lean monitor `checkWrite` on the raw bytes a peer
 recorded; id lists are comma separated; an issued request is `<typ>:<len>:<seed>:<must 0|1>` with payload
 `genPayload seed len`; a token starting with `#` names the run and is ignored. Reply `accept` or `reject <clause>`.
+`wr-prefix <version> x<raw stream> <item…>` — accept iff the raw stream is a prefix of the bytes the write-side fold writes for the
+items (a connection that fails leaves a prefix of whole frames: `C05.failed_stream_is_prefix`).
 `wr-seq <version> <item…>` — the write-side fold on a dequeue order: items `a<id>` (ack), `r<typ>:<len>:<seed>:<wants>`
 (request), `v<n>` (version change); reply: one `ver:typ:id:len:fnv32(payload)` per frame, then `rest=<n>` stray bytes.
 -/
@@ -66,6 +68,13 @@ def handleC05 : Handler := fun args =>
       | .accept => "accept"
       | .reject c => s!"reject {c}"
     | _, _, _, _ => "bad-op"
+  | "wr-prefix" :: v :: hex :: items =>
+    -- a connection that failed while the write loop was writing: the peer must have received a PREFIX of what the fold writes
+    let items := items.filter (fun t => !t.startsWith "#")
+    match v.toNat?, unhexBig hex, (items.zipIdx.mapM fun (t, i) => parseWItem t (i + 1)) with
+    | some v, some raw, some its =>
+      if raw.isPrefixOf (run (WState.init v) its).bytes then "accept" else "reject not-a-prefix-of-whole-frames"
+    | _, _, _ => "bad-op"
   | "wr-seq" :: v :: items =>
     match v.toNat?, (items.zipIdx.mapM fun (t, i) => parseWItem t (i + 1)) with
     | some v, some its =>
